@@ -633,8 +633,9 @@ def check_styles_bytes(ctx, cases):
     for i, (lid, L, st, customs, xfs) in enumerate(cases):
         ctx.traces += 1
         ctx.count("xlsb-styles:layout")
-        if any(p in st for p in (b"\xE9\x04", b"\xE7\x04")):
-            ctx.count("xlsb-styles:colliding-bytes")
+        others = L["pre"] + L["mid"] + [r for it in (L["fmts"]["items"] if L["fmts"] else []) + L["xfs"]["items"] for r in it["junk"]]
+        if any(p in r["body"] for r in others for p in (b"\xE9\x04", b"\xE7\x04")):
+            ctx.count("xlsb-styles:colliding-bytes-in-other-records")
         e = enc.get(lid, "").split("#")
         if len(e) != 4:
             ctx.disagreements.append({"function": "xlsbstyles enc", "case": elines[i][:3000], "impl": "-", "model": "#".join(e)[:300]})
